@@ -14,8 +14,12 @@ CHECKS: dict[str, tuple[str, str, str, str]] = {}
 NOT_APPLICABLE: dict[str, str] = {}
 
 
-def reg(pid, technique, text, note, ref):
+CATEGORY: dict[str, str] = {}
+
+
+def reg(pid, technique, text, note, ref, category="exploration"):
     CHECKS[pid] = (technique, text, note, ref)
+    CATEGORY[pid] = category
 
 
 reg("C08",
@@ -167,6 +171,27 @@ reg("C10",
     "Defaults table hard-coded from the documentation in cpverif/model.py; values written quoted.",
     "DESIGN.md section 4, C10")
 
+reg("C15",
+    "fault enumeration: every single corruption of the sync data at every position of Hypothesis-generated charts, with an outcome oracle (ValueError / zero-tempo governance rule)",
+    "Fault enumeration by generated-input search: for each generated well-formed chart (1..12/40 tempo "
+    "events plus all other event kinds) every listed corruption is applied at every position: drop/shift "
+    "the tick-0 tempo and signature, duplicate tempo k's tick, swap tempo lines (all adjacent + a far "
+    "pair), zero tempo 'B 0'/'B 000' at k, Resolution 0/00, empty sync body, zero tempo after "
+    "everything; plus direct BPMEvents/SyncTrack construction from untrustworthy parts and negative "
+    "tick queries. Complete over positions per chart; charts are sampled.",
+    "The zero-tempo-last rule ('raises iff something is governed by it') is computed from the spec by "
+    "the harness.",
+    "DESIGN.md section 4, C15", category="fault_enumeration")
+
+reg("C16",
+    "Hypothesis charts x symbolic call arguments in all five overload forms against a reference notes-per-second and a tick/time metamorphic relation",
+    "Exploration by generated-input search: charts with present, note-less and absent tracks; ~12 calls "
+    "per chart whose bounds are drawn relative to the notes (exactly on a note start / sustain end, "
+    "+-1 tick / +-1 us, equal, reversed, outside); result compared with count-in-closed-interval over "
+    "length (isclose 1e-12), error outcomes with ValueError, tick-bounded call with its time-bounded twin.",
+    "Note timestamps used by the reference are the parsed chart's (their correctness is C01).",
+    "DESIGN.md section 4, C16")
+
 
 def build():
     checks = []
@@ -179,7 +204,7 @@ def build():
             "evidence_file": f"evidence/{pid}.json",
             "replay_cmd_template": f"./vcheck {pid} --replay {{path}}",
             "engine": "cpverif",
-            "level_claimed": {"category": "exploration", "text": text, "design_ref": ref},
+            "level_claimed": {"category": CATEGORY[pid], "text": text, "design_ref": ref},
             "level_note": note,
             "technique": technique,
         })
